@@ -49,7 +49,7 @@ inductive Kind where
   | key (k : Nat)                                   -- armored public key of GPG key id `k`
   | opaque
   | pn (signer : Ref)
-  | claim (signer pn : Ref) (ct : CType) (attr : Attr) (val : Val) (date : Nat)
+  | claim (signer pn : Ref) (ct : CType) (attr : Attr) (val : Val) (date : Nat) (drop : Nat)
   | del (signer target : Ref) (date : Nat)
   | bytes (parts : List Part)
   | file (name mtime fsize : Nat) (mime : Bytes) (whole : Nat) (img : Option (Nat × Nat)) (parts : List Part)
@@ -95,7 +95,7 @@ def ssetWalk (W : World) : Nat → Ref → List Ref × List Ref
 def fdeps (W : World) (b : Ref) : List Ref :=
   match (W b).kind with
   | .pn s => [s]
-  | .claim s _ _ _ _ _ => [s]
+  | .claim s _ _ _ _ _ _ => [s]
   | .del s _ _ => [s]
   | .file _ _ _ _ _ _ parts => partDeps W treeFuel parts
   | .dir _ ss => (ssetWalk W treeFuel ss).1
@@ -225,11 +225,22 @@ def dirRows (W : World) (b name sset : Nat) : List Row :=
   let members := (ssetWalk W treeFuel sset).2
   (kFileInfo b, [1, members.length, name]) :: members.map (fun c => (kDirChild b c, [1]))
 
+/-- Every sorted.KeyValue silently skips a row whose key is longer than MaxKeySize (767) or whose value
+is longer than MaxValueSize (63000) (sorted.CheckSizes; mem.go:123, :160 and the other stores), and since
+the `fix:` of F-C06-5 `mutationMap.Set` skips it too. Sizes are not modelled: the blob description says
+which rows of a claim are affected (`drop` bit 0: claim|, 1: signerattrvalue|, 2: path|, 3: signertargetpath|). -/
+def storable (drop : Nat) : Bytes → Bool
+  | 5 :: _ => !drop.testBit 0
+  | 12 :: _ => !drop.testBit 1
+  | 8 :: _ => !drop.testBit 2
+  | 7 :: _ => !drop.testBit 3
+  | _ => true
+
 /-- the rows of `b` beyond meta/have; `tt` is the camliType code found in the meta row of the target
 (only delete claims look at it) -/
 def kindRowsAt (W : World) (b : Ref) (tt : Nat) : List Row :=
   match (W b).kind with
-  | .claim s pn ct attr val date => claimRows W b s pn ct attr val date
+  | .claim s pn ct attr val date drop => (claimRows W b s pn ct attr val date).filter (fun r => storable drop r.1)
   | .del s t date => deleteRows W b s t date tt
   | .file name mtime fsize mime whole img _ => fileRows b name mtime fsize mime whole img
   | .dir name ss => dirRows W b name ss
